@@ -325,10 +325,9 @@ Qed.
 (* ------------------------------------------------------------------------------------ *)
 Lemma done_ok m s : Rep m s -> fst (done m) = true /\ Rep (snd (done m)) [].
 Proof.
-  intros R. unfold done. pose proof (rep_size_len m s R) as H1. pose proof (rep_len m s R) as H2.
-  pose proof (zlen_nonneg s) as H3.
-  destruct (Z.eqb_spec (size m) 0) as [E|E]; simpl; split; auto using rep_null.
-  assert (s = []) by (apply zlen_0; lia). now subst.
+  intros R. unfold done.
+  destruct R as [(Hb & Hs & Hl & Hz) | (rest & Hb & Hl & Hz)]; rewrite Hb; simpl; split; auto using rep_null.
+  subst s. left. auto.
 Qed.
 
 Lemma pcells_whole (b : buf) n : n = Z.of_nat (length b) -> pcells (Some b) 0 n = Ok b.
@@ -347,8 +346,8 @@ Proof.
   intros R. unfold dup. pose proof (zlen_nonneg s) as H3.
   destruct R as [(Hb & Hs & Hl & Hz) | (rest & Hb & Hl & Hz)].
   - subst s. rewrite Hz, Hb, Hl. simpl. eexists. split; [reflexivity|].
-    right. exists []. simpl. repeat split; reflexivity.
-  - rewrite MALLOC_ok by lia. cbn [bind]. rewrite Hb. unfold memcpy.
+    left. simpl. repeat split; reflexivity.
+  - rewrite Hb. rewrite MALLOC_ok by lia. cbn [bind]. unfold memcpy.
     rewrite pcells_whole by len_tac. cbn [bind].
     rewrite pput_whole by len_tac. cbn [bind].
     eexists. split; [reflexivity|]. right. exists rest. cbn [buff len size]. auto.
@@ -891,8 +890,7 @@ Proof.
   destruct d as [|x d'] eqn:Ed.
   - (* only white space *)
     rewrite app_nil_r in Hsplit. subst pre. cbn [trim_bwd]. zb. cbn [bind]. zb.
-    assert (Hsz : size m <> 0) by lia.
-    unfold done. destruct (Z.eqb_spec (size m) 0); [contradiction|].
+    unfold done. rewrite Hb.
     eexists. split; [reflexivity|]. simpl. apply rep_null.
   - (* a core that starts with x *)
     destruct (dropwhile_split isspace (rev (x :: d'))) as (post' & Hsplit2 & Hpost').
